@@ -532,6 +532,10 @@ func c07Scenarios(tier string) []c07Params {
 		{Name: "set-then-get", Pre: pre, Conns: [][][]string{one("SET k a POINT 3 3"), one("GET k a")}, After: map[int]int{1: 0}},
 		{Name: "set-live", Pre: pre, Conns: [][][]string{one("SET k a POINT 1.001 1.001")}, Live: true},
 		{Name: "set-del-vs-aofshrink", Pre: pre, Conns: [][][]string{two("SET k a POINT 3 3", "DEL k b"), one("SET k c POINT 4 4")}, Shrink: true, QuickBound: 1},
+		// a write racing with the command that makes the server read-only: once READONLY is answered no write takes effect
+		{Name: "set-vs-readonly", Pre: pre, Conns: [][][]string{one("SET k a POINT 3 3"), two("READONLY yes", "GET k a")}},
+		// a non-atomic script's write against a plain write on the same object (apply order = log order)
+		{Name: "evalna-vs-set", Pre: pre, Conns: [][][]string{{{"EVALNA", "return tile38.call('SET','k','a','POINT',7,7)", "0"}}, one("SET k a POINT 3 3")}, Model: map[string][][]string{"0.0": {w("SET k a POINT 7 7")}}},
 		{Name: "set-set-get-spin", Pre: pre, Conns: [][][]string{one("SET k a POINT 3 3"), one("SET k a POINT 4 4"), one("GET k a")}, Spin: true},
 		{Name: "set-vs-sweeper", Pre: append(pre, w("SET k e EX 1.1 POINT 6 6")), Conns: [][][]string{one("SET k e POINT 6 6"), one("GET k e")}, Expire: true},
 	}
